@@ -117,13 +117,10 @@ def _compute_headers(cols, col_indices):
 	dtypes = []
 	seen = set()
 
-	for idx in col_indices:
-		col = cols[idx]
-
-		# Display name
-		disp = col._name or ""
-		display_names.append(disp)
-
+	shown = set(col_indices)
+	# Walk ALL columns so that repeats are numbered as attribute access numbers
+	# them, even when the first occurrence is hidden behind the "..." column
+	for idx, col in enumerate(cols):
 		# Sanitized dot name
 		if col._name:
 			san = _sanitize_user_name(col._name)
@@ -136,6 +133,13 @@ def _compute_headers(cols, col_indices):
 				seen.add(san)
 		else:
 			san = f"col{idx}_"
+
+		if idx not in shown:
+			continue
+
+		# Display name
+		disp = col._name or ""
+		display_names.append(disp)
 		sanitized_names.append(san)
 
 		# Dtype (with nullable indicator)
